@@ -226,7 +226,7 @@ class BX:
 
     def run(self, prop, tier, seed, deadline=None):
         t0 = time.time()
-        deadline = deadline or float(os.environ.get('VERIF_DEADLINE', self.DEADLINE[tier]))
+        deadline = deadline or float(os.environ.get('VERIF_DEADLINE', self.DEADLINE[tier] * (1.6 if (prop == 'C07' and tier == 'quick') else 1)))
         flavours = self.FLAVOUR.get(prop, ['asan'])
         res = Result(prop)
         cov = {'states': 0, 'transitions': 0, 'traces_validated_against_impl': 0, 'samples': [], 'exhaustive': True,
@@ -240,6 +240,17 @@ class BX:
             for flav in flavours:
                 if tier == 'quick' and flav != flavours[0] and any(t in scope for t in ('pre=', 'stretch=130', 'rep=', 'L=4,', 'family=')):
                     continue      # quick tier: the small-MEMALLOC flavour on the two exhaustive subset scopes and the ramp only
+                if flav == 'asan-grow':
+                    # MEMALLOC only sizes the buffers of these kinds (the five hooked headers; HASHHF includes one of them)
+                    grow = ['PFC', 'RPFC', 'HTFC', 'HHTFC', 'RPHTFC', 'HASHHF']
+                    m = re.search(r',kinds=([A-Za-z+]+)', scope)
+                    if m:
+                        both = [k for k in m.group(1).split('+') if k in grow]
+                        if not both:
+                            continue
+                        scope = scope.replace(m.group(0), ',kinds=' + '+'.join(both))
+                    else:
+                        scope = scope + ',kinds=' + '+'.join(grow)
                 runs.append((scope, flav))
         for ri, (scope, flav) in enumerate(runs):
             if True:
